@@ -6,6 +6,10 @@ Model: coq/Model/Resolve.v (`resolve_ops`) over coq/Gen/Decompose.v (regenerated
 An input is {"N": n, "basis": null | "CSIGN" | ["CNOT", "RX", ...], "gates": [[name, targets, controls, arg], ...],
              "measure": bool (optional; a measurement is appended)}
   arg: null | number | [numbers];  basis null = the default argument of resolve_gates.
+A HISTORY on one circuit object adds "edits": [[how, index, gate | null], ...] with how = "assign" (targets / controls / arg_value of
+  the existing gate object at index are assigned in place; same name), "replace" (remove_gate_or_measurement(index) + add_gate(...,
+  index=[index])), "insert" (add_gate at index) or "remove"; resolve_gates(basis) is called before the first and after every edit,
+  and every result is compared with the model's / the oracle's decomposition of the circuit AS IT IS AT THAT CALL.
 """
 import cmath
 import glob
@@ -190,15 +194,8 @@ def oracle_transpile(inp, impl):
     return fails
 
 
-def run_impl(inp):
-    """-> ("ok", canonical gate list, extra) | ("rejected", exception text, extra); extra = snapshots of the input circuit before
-    and after the call, and the outcome of a second call on the same circuit object"""
-    try:
-        qc = _mk_circuit(inp)
-    except Exception as e:  # the input itself cannot be built: not a case
-        return ("unbuildable", repr(e))
-    b = inp.get("basis")
-
+def _resolve_obs(qc, b):
+    """one observation of qc.resolve_gates(b) -> ("ok", gates, extra) | ("rejected", text, extra)"""
     def call(arg):
         try:
             res = qc.resolve_gates() if b is None else qc.resolve_gates(basis=arg)
@@ -212,6 +209,73 @@ def run_impl(inp):
     extra["basis_after"] = repr(arg)
     extra["second"] = call(list(b) if isinstance(b, list) else b)
     return first + (extra,)
+
+
+def run_impl(inp):
+    """-> ("ok", canonical gate list, extra) | ("rejected", exception text, extra); extra = snapshots of the input circuit before
+    and after the call, and the outcome of a second call on the same circuit object"""
+    try:
+        qc = _mk_circuit(inp)
+    except Exception as e:  # the input itself cannot be built: not a case
+        return ("unbuildable", repr(e))
+    return _resolve_obs(qc, inp.get("basis"))
+
+
+def _edit_data(gates, edit):
+    """the gate list (input form) after one edit"""
+    how, i, g = edit
+    gs = [list(x) for x in gates]
+    if how in ("assign", "replace"):
+        gs[i] = list(g)
+    elif how == "insert":
+        gs.insert(i, list(g))
+    elif how == "remove":
+        del gs[i]
+    else:
+        raise ValueError(how)
+    return gs
+
+
+def _edit_obj(qc, edit):
+    """the same edit on the live circuit object, through the public attributes / methods"""
+    how, i, g = edit
+    if how == "assign":
+        obj = qc.gates[i]
+        assert obj.name == g[0]
+        obj.targets = list(g[1]) if g[1] else None
+        obj.controls = list(g[2]) if g[2] else None
+        obj.arg_value = _arg(g[3])
+        return
+    if how in ("replace", "remove"):
+        qc.remove_gate_or_measurement(i)
+    if how in ("replace", "insert"):
+        qc.add_gate(g[0], targets=(list(g[1]) if g[1] else None), controls=(list(g[2]) if g[2] else None), arg_value=_arg(g[3]),
+                    index=[i])
+
+
+def run_history(inp):
+    """history on ONE circuit object -> [(flat input describing the circuit at call k, observation of call k), ...] or None"""
+    base = {k: v for k, v in inp.items() if k != "edits"}
+    try:
+        qc = _mk_circuit(base)
+    except Exception:
+        return None
+    steps = [(base, _resolve_obs(qc, inp.get("basis")))]
+    gates = base["gates"]
+    for e in inp["edits"]:
+        try:
+            gates = _edit_data(gates, e)
+            _edit_obj(qc, e)
+        except Exception:
+            break
+        flat = dict(base, gates=gates)
+        if _canon(qc.gates) != [[g[0], list(g[1]), list(g[2]), _canon_arg(_arg(g[3]))] for g in gates]:
+            break                      # the edit did not do what the description says: not a case of this class
+        steps.append((flat, _resolve_obs(qc, inp.get("basis"))))
+    return steps
+
+
+HIST = " (call %d of a history on one circuit object: resolve, edit in place, resolve again)"
 
 
 # ------------------------------------------------------------------------------------------------
@@ -593,6 +657,64 @@ def gen_inputs(ctx):
     return inputs
 
 
+def gen_histories(ctx):
+    """histories on one circuit object: resolve, edit (in-place assignment of another angle / other qubits to the same gate, or
+    remove + insert at the same index, or insert / remove), resolve again with the same basis; 1-3 edits"""
+    rng = ctx.rng
+    specs = basis_specs()
+    out = []
+
+    def other(g, N):
+        for _ in range(8):
+            t, c = rng.choice(placements(g[0], N, rng, True))
+            h = mk_gate(g[0], t, c, rng)
+            if h != g:
+                return h
+        return None
+
+    def fresh(N, b):
+        for _ in range(20):
+            name = rng.choice(ALWAYS)
+            k = KINDS[name]
+            if k[0] + k[1] <= N:
+                t, c = rng.choice(placements(name, N, rng, True))
+                return mk_gate(name, t, c, rng)
+
+    # a. every parametrised kind / every multi-qubit kind: same name at the same index with another angle / other qubits
+    for name in ["RX", "RY", "RZ", "PHASEGATE", "GLOBALPHASE", "CNOT", "CSIGN", "SWAP", "ISWAP", "TOFFOLI", "FREDKIN", "X", "SNOT"]:
+        for b in rng.sample(specs, ctx.n(2, 8)):
+            N = 3
+            gs = [fresh(N, b), None, fresh(N, b)]
+            t, c = rng.choice(placements(name, N, rng, True))
+            gs[1] = mk_gate(name, t, c, rng)
+            h = other(gs[1], N)
+            if h is not None:
+                out.append(dict(N=N, basis=b, gates=gs, edits=[[rng.choice(["assign", "replace"]), 1, h]]))
+    # b. random histories
+    for _ in range(ctx.n(40, 400)):
+        N = rng.choice([2, 3])
+        b = rng.choice(specs)
+        gs = [fresh(N, b) for _ in range(rng.randint(1, 4))]
+        cur = [list(g) for g in gs]
+        edits = []
+        for _ in range(rng.randint(1, 3)):
+            r = rng.random()
+            i = rng.randrange(len(cur))
+            if r < 0.75 or len(cur) == 1:
+                h = other(cur[i], N)
+                e = [rng.choice(["assign", "replace"]), i, h] if h is not None else ["replace", i, fresh(N, b)]
+            elif r < 0.85:
+                e = ["replace", i, fresh(N, b)]
+            elif r < 0.93:
+                e = ["insert", i, fresh(N, b)]
+            else:
+                e = ["remove", i, None]
+            edits.append(e)
+            cur = _edit_data(cur, e)
+        out.append(dict(N=N, basis=b, gates=gs, edits=edits))
+    return out
+
+
 def gen_transpile(ctx):
     rng = ctx.rng
     out = []
@@ -641,7 +763,8 @@ def _nontrivial(inp, impl):
 def correspond(ctx):
     corr = Corr(rule="every gate kind x every valid basis specification (5 strings, 5x4 lists, native sets, default) x placements on "
                      "3 qubits, explicit GLOBALPHASE gates next to every phase-producing kind, list bases naming several two-qubit gates (all ordered "
-                     "pairs) with SWAP and every two-qubit kind, gates without a rule, edge/invalid specifications, random sequences on 2-4 qubits, malformed stream; "
+                     "pairs) with SWAP and every two-qubit kind, gates without a rule, edge/invalid specifications, random sequences on 2-4 qubits, malformed stream, "
+                     "histories on one circuit object (resolve, in-place edit keeping or changing the name sequence, resolve again; every call a case); "
                      "non-trivial = the decomposition changes the gate list or is refused")
     inputs = load_corpus() + gen_inputs(ctx)
     seen = set()
@@ -654,21 +777,32 @@ def correspond(ctx):
         impl = run_impl(inp)
         if impl[0] == "unbuildable":
             continue
-        cases.append((kind, inp, impl))
+        cases.append((kind, inp, impl, inp, ""))
+    # histories on one circuit object: every call is a case of its own, judged against the circuit as it is at that call
+    for hist in gen_histories(ctx):
+        k = _key(hist)
+        if k in seen:
+            continue
+        seen.add(k)
+        steps = run_history(hist)
+        if not steps or len(steps) < 2 or not all(_safe(f) for f, _ in steps):
+            continue
+        for j, (flat, impl) in enumerate(steps):
+            cases.append(("history", flat, impl, dict(hist, edits=hist["edits"][:j]) if j else flat, (HIST % (j + 1)) if j else ""))
     vals = run_model([c[1] for c in cases])
-    for (kind, inp, impl), val in zip(cases, vals):
+    for (kind, inp, impl, rep, tag), val in zip(cases, vals):
         corr.tally(kind)
         corr.tally("result:" + impl[0])
-        corr.count(_key(inp), nontrivial=_nontrivial(inp, impl), sample=inp if kind == "sequence" else None)
+        corr.count(_key(rep), nontrivial=_nontrivial(inp, impl), sample=inp if kind == "sequence" else None)
         try:
             model = model_out(val, inp)
         except Exception as e:
-            corr.disagree(inp, _show(impl), repr(val)[:300], f"model output not interpretable: {e!r}")
+            corr.disagree(rep, _show(impl), repr(val)[:300], f"model output not interpretable: {e!r}")
             continue
         if not same(impl, model):
-            corr.disagree(inp, _show(impl), _show(model), "resolve_gates output differs from Model/Resolve.v")
+            corr.disagree(rep, _show(impl), _show(model), "resolve_gates output differs from Model/Resolve.v" + tag)
         for what, obs, exp in oracle(inp, impl):
-            corr.oracle_fail(inp, obs, exp, what)
+            corr.oracle_fail(rep, obs, exp, what + tag)
     for inp in gen_transpile(ctx):
         impl = run_transpile(inp)
         if impl[0] == "unbuildable":
@@ -709,6 +843,11 @@ def _fails(inp):
     if "processor" in inp:
         impl = run_transpile(inp)
         return [] if impl[0] == "unbuildable" else oracle_transpile(inp, impl)
+    if inp.get("edits"):
+        out = []
+        for j, (flat, impl) in enumerate(run_history(inp) or []):
+            out += [(what + ((HIST % (j + 1)) if j else ""), obs, exp) for what, obs, exp in oracle(flat, impl)]
+        return out
     impl = run_impl(inp)
     if impl[0] == "unbuildable":
         return []
@@ -730,7 +869,8 @@ def search(ctx, broken):
             return t
     out = []
     seen = set()
-    for kind, inp in load_corpus() + gen_inputs(T()):
+    t = T()
+    for kind, inp in load_corpus() + [("history", h) for h in gen_histories(t)] + gen_inputs(t):
         for what, obs, exp in _fails(inp):
             if what not in seen:
                 seen.add(what)
